@@ -13,6 +13,16 @@ import (
 	"github.com/zclconf/go-cty/cty/gocty"
 )
 
+func hasBigKind(gt J) bool {
+	switch asS(gt["g"]) {
+	case "bigint", "bigfloat":
+		return true
+	case "slice", "map", "ptr":
+		return hasBigKind(asJ(gt["e"]))
+	}
+	return false
+}
+
 var prevCv = map[string]cty.Value{}
 var prevInto = map[string]cty.Value{}
 
@@ -45,6 +55,7 @@ var goKinds = map[string]reflect.Type{
 	"uint": reflect.TypeOf(uint(0)), "uint8": reflect.TypeOf(uint8(0)), "uint16": reflect.TypeOf(uint16(0)), "uint32": reflect.TypeOf(uint32(0)), "uint64": reflect.TypeOf(uint64(0)),
 	"float32": reflect.TypeOf(float32(0)), "float64": reflect.TypeOf(float64(0)), "string": reflect.TypeOf(""), "bool": reflect.TypeOf(false),
 	"struct1": reflect.TypeOf(struct1{}), "ctyvalue": reflect.TypeOf(cty.NilVal),
+	"bigint": reflect.TypeOf(big.Int{}), "bigfloat": reflect.TypeOf(big.Float{}),
 }
 
 func goType(gt J) reflect.Type {
@@ -80,6 +91,12 @@ func buildGo(gv J) reflect.Value {
 	case "float32", "float64":
 		f, _ := numBig(asJ(gv["n"])).Float64()
 		out.SetFloat(f)
+	case "bigint":
+		i, _ := numBig(asJ(gv["n"])).Int(nil)
+		out.Set(reflect.ValueOf(*i))
+	case "bigfloat":
+		f := new(big.Float).Copy(numBig(asJ(gv["n"])))
+		out.Set(reflect.ValueOf(*f))
 	case "string":
 		out.SetString(joinRunes(asL(gv["s"])))
 	case "bool":
@@ -134,6 +151,12 @@ func projectGo(v reflect.Value, gt J) J {
 		out["n"] = ProjectNum(new(big.Float).SetPrec(128).SetUint64(v.Uint()))
 	case "float32", "float64":
 		out["n"] = ProjectNum(new(big.Float).SetFloat64(v.Float()))
+	case "bigint":
+		i := v.Interface().(big.Int)
+		out["n"] = ProjectNum(new(big.Float).SetInt(&i))
+	case "bigfloat":
+		f := v.Interface().(big.Float)
+		out["n"] = ProjectNum(&f)
 	case "string":
 		out["s"] = runes(v.String())
 	case "bool":
@@ -218,6 +241,11 @@ func driveGoBridge(c *Ctx) error {
 				ev["it"] = failed("error", trunc(err.Error()))
 			default:
 				ev["it"] = J{"ok": true, "t": ProjectType(ty)}
+			}
+			if ct, ok := j["ct"].(map[string]any); ok && hasBigKind(gt) {
+				// no implied type exists for Go types holding big numbers: the caller names the cty type
+				ty = ConcretizeType(ct)
+				ev["it"] = J{"ok": true, "t": ProjectType(ty), "given": true}
 			}
 			ev["cv"] = J{"ok": false, "fail": "skipped"}
 			ev["back"] = J{"ok": false, "fail": "skipped"}
